@@ -175,7 +175,13 @@ class ClientAuthenticator:
             'Authentication mechanism failed: '
             + line.decode("ascii", "replace")
         )
-        self.authTryNextMethod()
+        if self.guid is not None:
+            # OK was already received: this ERROR answers NEGOTIATE_UNIX_FD.
+            # Authentication succeeded, only descriptor passing is refused.
+            self.sendAuthMessage(b'BEGIN')
+            self.authenticated = True
+        else:
+            self.authTryNextMethod()
 
     # -------------------------------------------------
 
